@@ -773,7 +773,7 @@ pub fn run(opts: &Opts) -> Report {
     c.rep.sample(json!({"exhaustive_strings": all.len(), "exhaustive_needles": needles.len(), "alphabet": SMALL.iter().collect::<String>()}));
 
     // ---- B. random strings over the full alphabet
-    let n_pairs = if opts.thorough { 150_000 } else { 12_000 };
+    let n_pairs = if opts.thorough { 300_000 } else { 12_000 };
     for i in 0..n_pairs {
         let s = rand_string(&mut rng, 7);
         let n = rand_needle(&mut rng, &s);
@@ -785,7 +785,7 @@ pub fn run(opts: &Opts) -> Report {
     }
 
     // ---- C. unary methods, splitAt at every offset
-    let n_un = if opts.thorough { 40_000 } else { 4_000 };
+    let n_un = if opts.thorough { 80_000 } else { 4_000 };
     for s in pool::strings() {
         unary_case(&mut c, s);
     }
@@ -806,7 +806,7 @@ pub fn run(opts: &Opts) -> Report {
     }
 
     // ---- D. regex
-    let n_re = if opts.thorough { 40_000 } else { 4_000 };
+    let n_re = if opts.thorough { 80_000 } else { 4_000 };
     for _ in 0..n_re {
         let s = match rng.below(4) {
             0 => rand_string(&mut rng, 6),
@@ -851,7 +851,7 @@ pub fn run(opts: &Opts) -> Report {
             math_case(&mut c, "pow", &[b.clone(), e.clone()]);
         }
     }
-    let n_math = if opts.thorough { 200_000 } else { 20_000 };
+    let n_math = if opts.thorough { 500_000 } else { 20_000 };
     for _ in 0..n_math {
         let v = pool::random_numeric(&mut rng);
         if matches!(v, CelValue::Bool(_)) {
